@@ -254,7 +254,7 @@ func runC13(r *core.Run) {
 			a.Now = a.Now.Add(time.Duration(1+r.Intn(100000, "advance-s")) * time.Second)
 		}
 		q := Req{Image: pool[r.Intn(len(pool), "image")], Candidate: cands[r.Intn(len(cands), "candidate")], OutDir: "out",
-			Overwrite: r.Bool("overwrite"), SNP: true, LaunchVmsas: 2, ClSpec: uint64(i + 1), Timestamp: a.Now, Retries: 0,
+			Overwrite: r.Bool("overwrite"), SNP: true, LaunchVmsas: []uint32{2, 2, 0}[r.Intn(3, "vmsas")] /* 0 = every count: a much longer document */, ClSpec: uint64(i + 1), Timestamp: a.Now, Retries: 0,
 			ViaCLI: backend == 1 && r.Bool("via-cli")}
 		if r.Chance(20, "snapshot?") {
 			q.SnapshotDir = "snap"
